@@ -123,6 +123,10 @@ def _run_world(arg):
     w = build_world(parents, ranks, seed, names)
     use_world(w)
     w.logging = False
+    if opts.get("nfields"):
+        # stat records as older kernels print them (44 fields up to 3.2, 47 in 3.3/3.4, 52 since 3.5)
+        for p_ in w.procs.values():
+            p_.stat_nfields = opts["nfields"]
     if opts.get("rev"):
         # a procfs whose listing is not in ascending pid order (lxcfs-like), and a program that has listed pids before
         w.listing_reversed = True
@@ -280,9 +284,19 @@ def _run_fault(arg):
     pr = psutil.Process(caller)
 
     def apply(world, dev, kind, subj, pid):
+        if dev == "eperm":
+            if pid in world.procs and pid != caller:
+                import errno as _e
+                from vf.simk.world import oserr
+                raise oserr(_e.EPERM, str(subj))          # this one access is refused ...
+            return
         if pid in world.procs and pid != caller:
             world.vanish(pid)
-    hook = PlanHook(((idx, "vanish"),) if idx is not None else (), apply)
+    if isinstance(idx, (list, tuple)):
+        plan = tuple((int(i), str(d)) for i, d in idx)    # ... and the same relative is gone at a later one
+    else:
+        plan = ((idx, "vanish"),) if idx is not None else ()
+    hook = PlanHook(plan, apply)
     w.hook = hook
     got = outcome(lambda: sorted(c.pid for c in pr.children(recursive=recursive)))
     w.hook = None
@@ -291,7 +305,7 @@ def _run_fault(arg):
     if got[0] != "ok":
         if got[1] not in ("NoSuchProcess", "ZombieProcess", "AccessDenied"):
             bad.append(("fault:children-leaked:%s" % got[1], "children(recursive=%s) of pid %d raised %r when a process vanished before access %r"
-                        % (recursive, caller, got, hook.accesses[idx] if idx is not None and idx < len(hook.accesses) else idx)))
+                        % (recursive, caller, got, hook.accesses[idx] if isinstance(idx, int) and idx < len(hook.accesses) else idx)))
         elif got[2].get("pid") != caller:
             bad.append(("fault:children-raised-for-another-pid", "children() of live pid %d raised %r" % (caller, got)))
     else:
@@ -329,7 +343,7 @@ def _run_fault(arg):
             bad.append(("fault:children-missing-relatives-unrelated-to-the-vanished-process",
                         "children(recursive=%s) of pid %d with pid %s vanishing before access %r: got %r, still must contain %r"
                         % (recursive, caller, sorted(gone), idx, got[1], sorted(keep))))
-    return {"n": len(hook.accesses), "bad": bad}
+    return {"n": len(hook.accesses), "bad": bad, "pids": [a[2] for a in hook.accesses]}
 
 
 def _timed(fn, arg, hang_result):
@@ -358,7 +372,7 @@ def run_after_history(arg):
 
 
 def run_fault(arg):
-    return _timed(_run_fault, arg, lambda e, a: {"n": 0, "bad": [("does-not-terminate", "%s (%r)" % (e, a))]})
+    return _timed(_run_fault, arg, lambda e, a: {"n": 0, "pids": [], "bad": [("does-not-terminate", "%s (%r)" % (e, a))]})
 
 
 def run_deep(arg):
@@ -399,6 +413,15 @@ def fault_part(ctx):
                 jobs.append((parents, ctx.seed, caller, rec, None))
                 for i in range(base["n"]):
                     jobs.append((parents, ctx.seed, caller, rec, i))
+                # two events on ONE relative: an access refused (EPERM), the relative gone at a later access
+                for i in range(base["n"]):
+                    if base["pids"][i] in (None, caller):
+                        continue
+                    r1 = run_fault((parents, ctx.seed, caller, rec, [[i, "eperm"]]))
+                    jobs.append((parents, ctx.seed, caller, rec, [[i, "eperm"]]))
+                    for j in range(i + 1, r1["n"]):
+                        if r1["pids"][j] == base["pids"][i]:
+                            jobs.append((parents, ctx.seed, caller, rec, [[i, "eperm"], [j, "vanish"]]))
     viols = []
     for j, r in zip(jobs, ctx.pmap(run_fault, jobs)):
         for cause, msg in r["bad"]:
@@ -421,6 +444,10 @@ def run(ctx):
                 names[who] = nm.decode("latin-1")
                 worlds.append((list(parents), [0, 1, 2], ctx.seed, names))
                 named += 1
+    for parents in ([0, 1, 2], [0, 1, 1], [3, 1, 2]):
+        for nf in (44, 47):
+            for nm in (None, "a b", "x) S 1 (y"):
+                worlds.append((list(parents), [0, 1, 2], ctx.seed, [None, nm, None], {"nfields": nf}))
     for parents in itertools.product(range(0, 5), repeat=3):
         worlds.append((list(parents), [0, 1, 2], ctx.seed, None, {"rev": True}))
         worlds.append((list(parents), [2, 1, 0], ctx.seed, None, {"rev": True}))
@@ -429,7 +456,7 @@ def run(ctx):
     for wd, (bad, sk) in zip(worlds, res):
         skipped += sk
         for cause, msg in bad:
-            viols.append({"cause": cause + (":adversarial-name" if len(wd) > 3 and wd[3] else "") + (":unordered-listing" if len(wd) > 4 else ""),
+            viols.append({"cause": cause + (":adversarial-name" if len(wd) > 3 and wd[3] else "") + (":unordered-listing" if len(wd) > 4 and wd[4].get("rev") else "") + (":old-kernel-stat-record" if len(wd) > 4 and wd[4].get("nfields") else ""),
                           "msg": msg, "case": {"parents": wd[0], "ranks": wd[1], "names": wd[3] if len(wd) > 3 else None,
                                                "opts": wd[4] if len(wd) > 4 else None}})
     reused = []
